@@ -97,6 +97,17 @@ class FlowFields(ImageBatch):
         kwargs["axes"] = axes or self._axes
         return super()._make_instance(data, grid, **kwargs)
 
+    @classmethod
+    def from_images(cls: Type[TFlowFields], images: Sequence[Image]) -> TFlowFields:
+        r"""Create batch of flow fields from sequence of flow fields with common vector axes."""
+        batch = super().from_images(images)
+        axes = [image.axes() for image in images if isinstance(image, FlowField)]
+        if any(ax != axes[0] for ax in axes[1:]):
+            raise ValueError(f"{cls.__name__}.from_images() 'images' must have the same axes")
+        if axes:
+            batch._axes = axes[0]
+        return batch
+
     def _make_subitem(self, data: Tensor, grid: Grid) -> Union[FlowField, Image]:
         r"""Create FlowField in __getitem__. Can be overridden by subclasses to return a subtype."""
         if data.shape[0] == data.ndim - 1:
